@@ -42,6 +42,7 @@ def dispatch (prop : String) (line : String) : Verdict :=
     | some "fmt" => FmtE.runFmt prop f obsS
     | some "std" => FmtE.runStd prop f obsS
     | some "val" => FmtE.runVal prop f obsS
+    | some "raw" => FmtE.runRaw prop f obsS
     | some "queue" => QueueE.runQueue prop f obsS
     | some "qstress" => QueueE.runStress prop f obsS
     | some "queue0" => QueueE.runQueue0 prop f obsS
